@@ -391,3 +391,20 @@ func NewVerifC03VoterOnServer(db youdb.Database, sk *ecdsa.PrivateKey, blsSk bls
 	d.V.SetLookBackMgr(srv.S)
 	return d
 }
+
+// C03ExistOver is Voter.existHashOverVotesThreshold (what Server.startVote asks the counting state).
+func (d *VerifVoter) C03ExistOver(round *big.Int, roundIndex uint32, chamberTh, houseTh uint32) bool {
+	return d.V.existHashOverVotesThreshold(round, roundIndex, chamberTh, houseTh)
+}
+
+// C03InsertFailed is what Server.commit does when the chain inserter refuses the committed block:
+// Voter.removeMarkedBlock(block hash). It returns the panic text if the call panics.
+func (d *VerifVoter) C03InsertFailed(blockHash common.Hash) (panicked string) {
+	defer func() {
+		if r := recover(); r != nil {
+			panicked = fmt.Sprint(r)
+		}
+	}()
+	d.V.removeMarkedBlock(blockHash)
+	return ""
+}
